@@ -80,7 +80,22 @@ def free_layout(line, j, o, amp, trail=None, fillers=(), indent="   ", gap=" "):
     if o >= b - a:
         return None
     cut = a + o
-    if o == 0:
+    soft = False
+    if o == 0 and j > 0 and sp[j - 1][2] == a:
+        # adjacent tokens of the oracle lexer that may belong to one lexical token of the
+        # standard (.op. / .true. / 1.5e-3): such a boundary is treated like a token interior
+        pk, pa, pb = sp[j - 1]
+        prev = line[pa:pb]
+        cur = line[a:b]
+        if prev == "." or cur == ".":
+            soft = True
+        elif (cur == "+" or cur == "-") and pk == "w" and prev[:1].isdigit() and api.char_in(prev[-1:], "eEdD"):
+            soft = True
+        elif (prev == "+" or prev == "-") and j > 1 and sp[j - 2][2] == pa and sp[j - 2][0] == "w":
+            pp = line[sp[j - 2][1]:sp[j - 2][2]]
+            if pp[:1].isdigit() and api.char_in(pp[-1:], "eEdD"):
+                soft = True
+    if o == 0 and not soft:
         kind = "tok"
         first = line[:cut].rstrip(" ") + gap + "&"
         rest = line[cut:]
